@@ -412,6 +412,9 @@ impl Property for C12 {
     fn tape_len(&self, _t: Tier) -> usize {
         560
     }
+    fn fuzz_runs(&self, _tier: Tier) -> u64 {
+        40_000
+    }
     fn random_cases(&self, tier: Tier) -> u64 {
         tier.pick(30_000, 400_000)
     }
